@@ -87,7 +87,7 @@ func opClassify(req *Req) (any, map[string]string, error) {
 
 func checkClassify(prop, tier string, seed int64) int {
 	rep := NewReport(prop, tier, seed)
-	rep.Rule = "schemas: TLC-enumerated grammar (22 leaf kinds incl. $refs to 11 targets with self-containing arrays/maps and mutual recursion, 9 containers, nested to the bound) + every schema position of seeded random documents (incl. W+ container recursion) + repository fixtures; " +
+	rep.Rule = "schemas: TLC-enumerated grammar (22 leaf kinds incl. $refs to 13 targets with self-containing arrays/maps and mutual recursion, 9 containers, nested to the bound) + every schema position of seeded random documents (incl. W+ container recursion) + repository fixtures; " +
 		"every position is classified by the real Schema(); non-trivial: document with at least one $ref-only schema or container; distinct by document hash"
 	rep.Assumptions = []string{"strfmt.Default.ContainsName decides which formats are known (relation supplied per case)", "schema positions are those listed by the analyzer (C12)", "projection; TLC, Json module"}
 	scratch, err := scratchDir("classify")
